@@ -101,6 +101,7 @@ type Cfg struct {
 	Backend      int    `json:"backend"`
 	FinishAlways bool   `json:"finish_always,omitempty"` // call Finish also after a failed Exec/Flush
 	SetSession   bool   `json:"set_session,omitempty"`   // caller sets the session on the store handle (as examples/http does)
+	First        bool   `json:"first,omitempty"`         // every engine is built WithFirst(a benign scripted pre-VM function)
 }
 
 // ---------------------------------------------------------------------------------------
@@ -280,6 +281,16 @@ func (r *Res) FuncFor(ctx context.Context, sym string) (resource.EntryFunc, erro
 		return nil, fmt.Errorf("unknown function: %s", sym)
 	}
 	s.W.Rec.Add(s.Idx, "FuncFor", sym, "")
+	if e.Static != nil {
+		// static-load symbol: resolved by language at lookup time, no application code
+		c, ok := e.StaticContent(lg)
+		if !ok {
+			return nil, fmt.Errorf("no static entry for %s", sym)
+		}
+		return func(ctx context.Context, nodeSym string, input []byte) (resource.Result, error) {
+			return resource.Result{Content: c}, nil
+		}, nil
+	}
 	return func(ctx context.Context, nodeSym string, input []byte) (resource.Result, error) {
 		return s.callExt(ctx, e, nodeSym, input)
 	}, nil
@@ -377,6 +388,18 @@ func (s *Sess) resource() resource.Resource {
 	return s.Res
 }
 
+// firstFunc is the scripted pre-VM function (engine.WithFirst): it only returns a value.
+func (s *Sess) firstFunc(ctx context.Context, sym string, input []byte) (resource.Result, error) {
+	k := s.Calls["_first"]
+	s.Calls["_first"] = k + 1
+	if s.cur != nil {
+		s.cur.Calls++
+	}
+	s.CallLog = append(s.CallLog, ExtCall{Sym: "_first", K: k, Input: string(input), Lang: ctxLang(ctx)})
+	s.W.Rec.Add(s.Idx, "First", fmt.Sprintf("#%d", k), "")
+	return resource.Result{Content: "first"}, nil // constant: how often an engine is built must not show
+}
+
 // build creates a fresh engine (and persister, store handle) for the session.
 func (s *Sess) build() error {
 	s.Eng = nil
@@ -399,6 +422,9 @@ func (s *Sess) build() error {
 		s.Eng = engine.NewEngine(s.engineCfg(), s.resource()).WithPersister(s.Pe)
 		s.St = nil
 		s.Ca = nil
+		if s.W.Cfg.First {
+			s.Eng = s.Eng.WithFirst(s.firstFunc)
+		}
 	} else {
 		s.St = state.NewState(s.W.Cfg.FlagCount)
 		s.Ca = cache.NewCache()
@@ -406,6 +432,9 @@ func (s *Sess) build() error {
 			s.Ca = s.Ca.WithCacheSize(s.W.Cfg.CacheSize)
 		}
 		s.Eng = engine.NewEngine(s.engineCfg(), s.resource()).WithState(s.St).WithMemory(s.Ca)
+		if s.W.Cfg.First {
+			s.Eng = s.Eng.WithFirst(s.firstFunc)
+		}
 	}
 	return nil
 }
